@@ -26,6 +26,11 @@ func ZZ_C07_Undo() {
 	if variant == "walk" {
 		ops = append(ops, op{"undo", undoKey})
 	}
+	if variant == "crash" {
+		// C01: short editing sequences with undo and redo freely mixed; nothing is asserted,
+		// the engine reports panics / hangs
+		ops = []op{{"a", "a"}, {"backspace", "\x08"}, {"kill-line", "\x0b"}, {"yank", "\x19"}, {"undo", undoKey}, {"redo", redoKey}}
+	}
 	script := &zzverif.Script{}
 	rl := zzSession(script)
 
@@ -60,6 +65,13 @@ func ZZ_C07_Undo() {
 			}
 		case phase == 0:
 			step := wait - 1
+			if variant == "crash" {
+				if step == s-1 {
+					zzverif.Reach("steps-done")
+					zzverif.Block()
+				}
+				break
+			}
 			if ops[chosen[step]].name == "undo" {
 				zzverif.Assert(inG(buf), "undo-shows-an-earlier-state")
 			}
